@@ -4,7 +4,7 @@
    they are quantified variables here and every fact used about them is a visible premise.
    [res] = Ok v | Err code | Panic ("the Go code would panic here"). *)
 From Coq Require Import List ZArith Bool Arith.
-From V Require Import Lib.Enc Gen.Cryptz Model.Aes Proofs.AesPkcs7 Proofs.AesCbc.
+From V Require Import Lib.Enc Gen.Cryptz Model.Aes Proofs.AesPkcs7 Proofs.AesCbc Proofs.AesMem.
 Import ListNotations.
 
 (* ---- length helpers are exact (the `& blockSizeMask` arithmetic is `mod 16`) *)
@@ -130,3 +130,77 @@ Theorem c08_gcm_key_size_errors : forall (seal : bytes -> bytes -> bytes -> byte
   gcm_encrypt seal dst x key nonce ad = Err E_NEWCIPHER /\ gcm_decrypt open dst x key nonce ad = Err E_NEWCIPHER.
 Proof. exact gcm_key_size_errors. Qed.
 Print Assumptions c08_gcm_key_size_errors.
+
+(* ---- destination and source sharing memory: the memory-level functions (one backing array, (offset, length) views;
+        what the correspondence run executes) equal the functional ones framed by the untouched bytes.
+        [lift f r] maps f over an Ok result.  CBC encryption: for EVERY placement of the source inside the array
+        (copy is memmove, CryptBlocks runs in place on dst), hence in particular for separate buffers and for the
+        documented pre-grown plaintext. *)
+Theorem c08_alias_cbc_encrypt_any_placement : forall (E : bytes -> bytes -> bytes),
+  (forall k b, good_key k = true -> length b = 16 -> length (E k b) = 16) ->
+  forall (A dst Bt : bytes) soff slen key iv, let m := A ++ dst ++ Bt in
+  soff + slen <= length m ->
+  cbc_encrypt_mem E m (length A) (length dst) soff slen key iv =
+    lift (fun d => A ++ d ++ Bt) (cbc_encrypt E dst (mread m soff slen) key iv).
+Proof. exact cbc_encrypt_mem_frame. Qed.
+Print Assumptions c08_alias_cbc_encrypt_any_placement.
+Theorem c08_alias_cbc_encrypt_in_place : forall (E : bytes -> bytes -> bytes),
+  (forall k b, good_key k = true -> length b = 16 -> length (E k b) = 16) ->
+  forall (A plain spare Bt : bytes) key iv,
+  cbc_encrypt_mem E (A ++ (plain ++ spare) ++ Bt) (length A) (length (plain ++ spare)) (length A) (length plain) key iv =
+    lift (fun d => A ++ d ++ Bt) (cbc_encrypt E (plain ++ spare) plain key iv).
+Proof. exact cbc_encrypt_in_place. Qed.
+Print Assumptions c08_alias_cbc_encrypt_in_place.
+(* CBC decryption: every placement CryptBlocks accepts (same start, or no overlap) *)
+Theorem c08_alias_cbc_decrypt : forall (D : bytes -> bytes -> bytes),
+  (forall k b, good_key k = true -> length b = 16 -> length (D k b) = 16) ->
+  forall (A dst Bt : bytes) soff slen key iv, let m := A ++ dst ++ Bt in
+  soff + slen <= length m -> inexact_overlap (length A) slen soff slen = false ->
+  cbc_decrypt_mem D m (length A) (length dst) soff slen key iv =
+    lift (fun x => (fst x, A ++ snd x ++ Bt)) (cbc_decrypt D dst (mread m soff slen) key iv).
+Proof. exact cbc_decrypt_mem_frame. Qed.
+Print Assumptions c08_alias_cbc_decrypt.
+Theorem c08_alias_cbc_decrypt_in_place : forall (D : bytes -> bytes -> bytes),
+  (forall k b, good_key k = true -> length b = 16 -> length (D k b) = 16) ->
+  forall (A ct Bt : bytes) key iv,
+  cbc_decrypt_mem D (A ++ ct ++ Bt) (length A) (length ct) (length A) (length ct) key iv =
+    lift (fun x => (fst x, A ++ snd x ++ Bt)) (cbc_decrypt D ct ct key iv).
+Proof. exact cbc_decrypt_in_place. Qed.
+Print Assumptions c08_alias_cbc_decrypt_in_place.
+Theorem c08_alias_cbc_decrypt_separate : forall (D : bytes -> bytes -> bytes),
+  (forall k b, good_key k = true -> length b = 16 -> length (D k b) = 16) ->
+  forall (A dst Mid ct Post : bytes) key iv, length ct <= length dst ->
+  cbc_decrypt_mem D (A ++ dst ++ Mid ++ ct ++ Post) (length A) (length dst) (length (A ++ dst ++ Mid)) (length ct) key iv =
+    lift (fun x => (fst x, A ++ snd x ++ Mid ++ ct ++ Post)) (cbc_decrypt D dst ct key iv).
+Proof. exact cbc_decrypt_disjoint. Qed.
+Print Assumptions c08_alias_cbc_decrypt_separate.
+(* GCM *)
+Theorem c08_alias_gcm_encrypt : forall (seal : bytes -> bytes -> bytes -> bytes -> bytes),
+  (forall k n p a, length (seal k n p a) = length p + 16) ->
+  forall (A dst Bt : bytes) soff slen key nonce ad, let m := A ++ dst ++ Bt in
+  soff + slen <= length m -> (slen + 16 <= length dst -> inexact_overlap (length A) slen soff slen = false) ->
+  gcm_encrypt_mem seal m (length A) (length dst) soff slen key nonce ad =
+    lift (fun d => A ++ d ++ Bt) (gcm_encrypt seal dst (mread m soff slen) key nonce ad).
+Proof. exact gcm_encrypt_mem_frame. Qed.
+Print Assumptions c08_alias_gcm_encrypt.
+Theorem c08_alias_gcm_encrypt_in_place : forall (seal : bytes -> bytes -> bytes -> bytes -> bytes),
+  (forall k n p a, length (seal k n p a) = length p + 16) ->
+  forall (A plain spare Bt : bytes) key nonce ad,
+  gcm_encrypt_mem seal (A ++ (plain ++ spare) ++ Bt) (length A) (length (plain ++ spare)) (length A) (length plain) key nonce ad =
+    lift (fun d => A ++ d ++ Bt) (gcm_encrypt seal (plain ++ spare) plain key nonce ad).
+Proof. exact gcm_encrypt_in_place. Qed.
+Print Assumptions c08_alias_gcm_encrypt_in_place.
+Theorem c08_alias_gcm_decrypt_in_place : forall (open : bytes -> bytes -> bytes -> bytes -> option bytes),
+  (forall k n c a p, open k n c a = Some p -> length c = length p + 16) ->
+  forall (A body tag Bt : bytes) key nonce ad, length tag = 16 ->
+  gcm_decrypt_mem open (A ++ body ++ tag ++ Bt) (length A) (length body) (length A) (length (body ++ tag)) key nonce ad =
+    lift (fun d => A ++ d ++ tag ++ Bt) (gcm_decrypt open body (body ++ tag) key nonce ad).
+Proof. exact gcm_decrypt_in_place. Qed.
+Print Assumptions c08_alias_gcm_decrypt_in_place.
+Theorem c08_alias_gcm_decrypt_separate : forall (open : bytes -> bytes -> bytes -> bytes -> option bytes),
+  (forall k n c a p, open k n c a = Some p -> length c = length p + 16) ->
+  forall (A dst Mid ct Post : bytes) key nonce ad, length ct <= length dst + 16 ->
+  gcm_decrypt_mem open (A ++ dst ++ Mid ++ ct ++ Post) (length A) (length dst) (length (A ++ dst ++ Mid)) (length ct) key nonce ad =
+    lift (fun d => A ++ d ++ Mid ++ ct ++ Post) (gcm_decrypt open dst ct key nonce ad).
+Proof. exact gcm_decrypt_disjoint. Qed.
+Print Assumptions c08_alias_gcm_decrypt_separate.
